@@ -12,6 +12,22 @@ def desc_arg(e, i):
     return pathx.desc(e[2]["a"][i]) if i < len(e[2]["a"]) else "?"
 
 
+def batch_only_moved(ctx, rule):
+    """the action worker hands the collected set on with mem::take and does not otherwise touch it (shared with C02)"""
+    facts = ctx.facts
+    aw = ctx.anchor_one(rule, "action worker coroutine", [c for c in facts.children(ctx.anchor_fn(rule, "watchexec::action::worker::worker")) if c.kind == "coroutine"])
+    touch = []
+    for c, nd in thir.calls_in(thir.root(aw)):
+        if pathx.is_tracing(nd) or not nd["a"]:
+            continue
+        a0 = pathx.desc(nd["a"][0]).lstrip("^")
+        if a0 == "set":
+            touch.append(strip_generics(c).split("::")[-2] + "::" + strip_generics(c).split("::")[-1])
+    ctx.require(touch == ["mem::take"], rule, "batch-only-moved", "the collected set is handed on with mem::take and not otherwise touched", aw.loc(aw.line), detail=str(touch),
+                fail="the action worker edits the collected batch before handing it to the handler (%s): accepted events are dropped, merged or reordered" % touch)
+
+
+
 def run(ctx):
     ctx.level = "other"
     ctx.undecided = ("exactly-once delivery and FIFO/priority order inside async_priority_channel; fairness between concurrent producers; "
@@ -154,16 +170,7 @@ def run(ctx):
 
     # ---- between the collector and the handler the batch is only moved
     try:
-        aw = ctx.anchor_one("R01.3", "action worker coroutine", [c for c in facts.children(ctx.anchor_fn("R01.3", "watchexec::action::worker::worker")) if c.kind == "coroutine"])
-        touch = []
-        for c, nd in thir.calls_in(thir.root(aw)):
-            if pathx.is_tracing(nd) or not nd["a"]:
-                continue
-            a0 = pathx.desc(nd["a"][0]).lstrip("^")
-            if a0 == "set":
-                touch.append(strip_generics(c).split("::")[-2] + "::" + strip_generics(c).split("::")[-1])
-        ctx.require(touch == ["mem::take"], "R01.3", "batch-only-moved", "the collected set is handed on with mem::take and not otherwise touched", aw.loc(aw.line), detail=str(touch),
-                    fail="the action worker edits the collected batch before handing it to the handler (%s): accepted events are dropped, merged or reordered" % touch)
+        batch_only_moved(ctx, "R01.3")
     except Skip:
         pass
 
